@@ -47,6 +47,10 @@ struct Gen<'c> {
 
 impl<'c> Gen<'c> {
     fn name(&mut self) -> String {
+        if self.c.chance(12) {
+            // a name the runtime itself declares at the root: taken there, free inside a module
+            return BUILTIN_ROOT_NAMES[self.c.below(BUILTIN_ROOT_NAMES.len())].to_string();
+        }
         NAMES[self.c.below(NAMES.len())].to_string()
     }
     fn next_tag(&mut self) -> i32 {
@@ -68,7 +72,13 @@ impl<'c> Gen<'c> {
                     let children = self.items(depth + 1, false);
                     Spec::Module { name, children }
                 }
-                5 => Spec::Type { name: mname(self.c.below(N_MARKERS)), marker: 0, copy: self.c.chance(128) },
+                5 => {
+                    // mostly M<marker>, sometimes any name of the pool (also one the runtime declares itself)
+                    let marker = self.c.below(N_MARKERS);
+                    let copy = self.c.chance(128);
+                    let name = if self.c.chance(45) { self.name() } else { mname(marker) };
+                    Spec::Type { name, marker, copy }
+                }
                 6 => {
                     let marker = if self.c.chance(60) { Some(self.c.below(N_MARKERS)) } else { None };
                     Spec::Constant { name: self.name().to_uppercase(), marker, value: self.next_tag() }
@@ -93,12 +103,6 @@ impl<'c> Gen<'c> {
             };
             v.push(s);
         }
-        // a type's marker is given by its name so that the same Rust type always has the same Roto name
-        for s in v.iter_mut() {
-            if let Spec::Type { name, marker, .. } = s {
-                *marker = name[1..].parse().unwrap_or(0);
-            }
-        }
         v
     }
 }
@@ -119,6 +123,8 @@ struct Model {
     scopes: Vec<Scope>,
     /// marker -> (scope, roto name)
     types: BTreeMap<usize, (usize, String)>,
+    /// marker -> path of the type from the root (modules, then its name)
+    type_paths: BTreeMap<usize, Vec<String>>,
     /// methods per marker
     methods: BTreeMap<usize, BTreeSet<String>>,
     /// reachable functions: (path, shape, marker, tag)
@@ -127,7 +133,7 @@ struct Model {
     meths: Vec<(usize, String, bool, i32)>,
 }
 
-const BUILTIN_ROOT_NAMES: [&str; 6] = ["String", "u8", "print", "Option", "List", "bool"];
+const BUILTIN_ROOT_NAMES: [&str; 11] = ["String", "u8", "Option", "List", "bool", "Result", "Verdict", "Prefix", "i64", "f32", "StringBuf"];
 
 impl Model {
     fn new() -> Self {
@@ -135,7 +141,7 @@ impl Model {
         for b in BUILTIN_ROOT_NAMES {
             root.names.insert(b.to_string(), "builtin");
         }
-        Model { scopes: vec![root], types: BTreeMap::new(), methods: BTreeMap::new(), fns: vec![], consts: vec![], meths: vec![] }
+        Model { scopes: vec![root], types: BTreeMap::new(), type_paths: BTreeMap::new(), methods: BTreeMap::new(), fns: vec![], consts: vec![], meths: vec![] }
     }
 
     fn valid_name(n: &str) -> bool {
@@ -154,7 +160,7 @@ impl Model {
     fn add(&mut self, items: &[Spec]) -> Result<(), String> {
         let mut m = self.clone();
         m.pass_modules(0, items, &[])?;
-        m.pass_types(0, items)?;
+        m.pass_types(0, items, &[])?;
         m.pass_functions(0, items, &[])?;
         m.pass_constants(0, items, &[])?;
         m.pass_uses(0, items)?;
@@ -190,7 +196,7 @@ impl Model {
         self.scopes[scope].modules[name]
     }
 
-    fn pass_types(&mut self, scope: usize, items: &[Spec]) -> Result<(), String> {
+    fn pass_types(&mut self, scope: usize, items: &[Spec], path: &[String]) -> Result<(), String> {
         for it in items {
             match it {
                 Spec::Type { name, marker, .. } => {
@@ -199,10 +205,15 @@ impl Model {
                         return Err(format!("Rust type Mk<{marker}> registered twice"));
                     }
                     self.types.insert(*marker, (scope, name.clone()));
+                    let mut p = path.to_vec();
+                    p.push(name.clone());
+                    self.type_paths.insert(*marker, p);
                 }
                 Spec::Module { name, children } => {
                     let cs = self.child_scope(scope, name);
-                    self.pass_types(cs, children)?;
+                    let mut p = path.to_vec();
+                    p.push(name.clone());
+                    self.pass_types(cs, children, &p)?;
                 }
                 _ => {}
             }
@@ -649,6 +660,26 @@ impl WorkerState for W {
                     o.nontrivial = true;
                     o
                 }
+                Some(b"type-named-like-a-primitive") => {
+                    // at the root the name is taken; in a module it is free and the type is reachable there
+                    for n in ["u8", "Prefix", "List", "String", "bool"] {
+                        let mut rt = Runtime::new();
+                        let r = Type::clone::<Val<Mk<2>>>(n, "", location!()).map_err(|e| format!("{e}")).and_then(|t| rt.add(t).map_err(|e| format!("{e}")));
+                        if r.is_ok() {
+                            return Outcome::fail("accepted-invalid-library:type-named-like-a-primitive", format!("a registered type named {n:?} was accepted at the root, where that name is taken"));
+                        }
+                    }
+                    return scenario_simple(|| {
+                        let mut m = Module::new("shapes", "", location!()).map_err(|e| format!("{e}"))?;
+                        m.add(Type::clone::<Val<Mk<2>>>("u8", "", location!()).map_err(|e| format!("{e}"))?);
+                        let mut im = Impl::new::<Val<Mk<2>>>(location!());
+                        im.add(Function::new("make", "", vec![], || -> i32 { 41 }, location!()).map_err(|e| format!("{e}"))?);
+                        m.add(im);
+                        let mut rt = Runtime::new();
+                        rt.add(m).map_err(|e| format!("{e}"))?;
+                        Ok(rt)
+                    }, "fn t() -> i32 { let x: u8 = 1; shapes.u8.make() + 1 }", 42);
+                }
                 Some(b"name-with-trivia") => {
                     for n in TRIVIA_NAMES {
                         if Constant::new(n, "", 1i32, location!()).is_ok() {
@@ -868,8 +899,10 @@ impl WorkerState for W {
                         let _ = writeln!(src, "fn m{i}() -> i32 {{ {mk}.{n}() }}");
                         expected.push((format!("m{i}"), *tag));
                     }
-                } else if *tscope == 0 {
-                    let _ = writeln!(src, "fn m{i}() -> i32 {{ {tname}.{n}() }}");
+                } else {
+                    // a static method is reached through the path of its type
+                    let _ = tname;
+                    let _ = writeln!(src, "fn m{i}() -> i32 {{ {}.{n}() }}", model.type_paths[marker].join("."));
                     expected.push((format!("m{i}"), *tag));
                 }
             }
